@@ -14,6 +14,6 @@ Terminal(shutReturned, runReturned, registered) == shutReturned /\ runReturned /
 Outcomes == {"ok", "err", "closed"}
 \* operations that go through the strand and therefore answer "closed" once the pool has shut down
 Stranded == {"connect", "size", "connections", "disconnect", "send", "broadcast", "pings", "connection", "stale", "clearstale"}
-Kinds == Stranded \cup {"listening", "incoming"}
+Kinds == Stranded \cup {"listening", "incoming", "connect-refused"}
 Split(s) == LET i == CHOOSE k \in 1..Len(s) : SubSeq(s, k, k) = ":" IN <<SubSeq(s, 1, i - 1), SubSeq(s, i + 1, Len(s))>>
 =============================================================================
